@@ -22,6 +22,7 @@ def control_flow_programs(seed, n):
 
 def _one(rnd, k):
     ctr = [0]
+    wctr = [0]
     def mark():
         ctr[0] += 1; return "print('m%d')" % ctr[0]
     def leaf(in_loop, in_func):
@@ -46,7 +47,8 @@ def _one(rnd, k):
             if rnd.random() < 0.5:
                 L.append(p + "else:"); L += block(depth - 1, in_loop, in_func, ind + 1)
         elif kind == "while":
-            v = "w%d" % rnd.randint(0, 99)
+            wctr[0] += 1
+            v = "w%d_%d" % (rnd.randint(0, 99), wctr[0])      # unique per loop: a nested loop never resets an outer counter
             L.append(p + "%s = 0" % v); L.append(p + "while %s < %d:" % (v, rnd.randint(1, 3)))
             L.append(p + "    %s += 1" % v); L += block(depth - 1, True, in_func, ind + 1)
             if rnd.random() < 0.4:
@@ -141,15 +143,17 @@ def _enum(depth):
         for subs in itertools.product(*[list(_enum(depth - 1)) for _ in slots]):
             yield (kind, list(subs))
 
-def nesting_program(tree, outer_loop):
+def nesting_program(tree, outer_loop, tail=False):
+    """tail=True: the compound statement is the LAST statement of the function (paths that fall out of it
+    reach the implicit return None)"""
     ctr = [0, 0]
     body = _render(tree, 2 if outer_loop else 1, ctr)
     src = CM + "def f(x):\n"
     if outer_loop:
-        src += "    for o in range(2):\n        print('o', o)\n" + "\n".join(body) + "\n        print('after')\n"
+        src += "    for o in range(2):\n        print('o', o)\n" + "\n".join(body) + "\n" + ("" if tail else "        print('after')\n")
     else:
-        src += "\n".join(body) + "\n    print('after')\n"
-    src += "    return x\n"
+        src += "\n".join(body) + "\n" + ("" if tail else "    print('after')\n")
+    if not tail: src += "    return x\n"
     src += "for a in range(2):\n    try:\n        print('r', f(a))\n    except E2:\n        print('exc E2')\n    except E1:\n        print('exc E1')\n    except E3:\n        print('exc E3')\n"
     return src
 
@@ -160,7 +164,9 @@ def nesting_programs(seed, n_random):
     for t in _enum(1):
         if isinstance(t, str): continue
         for outer in (False, True):
-            if _valid(t, outer): out.append((nesting_program(t, outer), dict(tree=repr(t), outer_loop=outer)))
+            if _valid(t, outer):
+                out.append((nesting_program(t, outer), dict(tree=repr(t), outer_loop=outer)))
+                out.append((nesting_program(t, outer, True), dict(tree=repr(t), outer_loop=outer, tail=True)))
     leaves = LEAVES
     def rand_tree(d):
         if d == 0 or rnd.random() < 0.25: return rnd.choice(leaves)
@@ -174,6 +180,8 @@ def nesting_programs(seed, n_random):
         outer = rnd.random() < 0.6
         if _valid(t, outer):
             out.append((nesting_program(t, outer), dict(tree=repr(t), outer_loop=outer))); n_random -= 1
+            if n_random % 3 == 0:
+                out.append((nesting_program(t, outer, True), dict(tree=repr(t), outer_loop=outer, tail=True)))
     return out
 
 # ---------------------------------------------------------------- pending exit across cleanup code
@@ -585,3 +593,85 @@ def nested_scope_programs(seed, n):
             src += "        def m(self):\n            return (%s,)\n    return C\n" % ", ".join(read)
             progs.append(src)
     return progs
+
+# ---------------------------------------------------------------- the exception being handled (bare raise, nested handlers)
+def exc_state_programs():
+    """systematic programs about which exception a bare `raise` re-raises: a handler for OUTER does some
+    ACTIVITY (another exception raised and handled in the same frame, in a callee, in a generator, inside
+    a with/finally), then a bare raise at POSITION; the driver prints the class that comes out."""
+    outers = ["ValueError('outer')", "KeyError('outer')", "ZeroDivisionError('outer')"]
+    acts = {
+        "none": ["pass"],
+        "handled-here": ["try:", "    [][1]", "except IndexError:", "    print('inner handled')"],
+        "handled-here-as": ["try:", "    raise TypeError('inner')", "except TypeError as e2:", "    print('inner handled', e2.args[0])"],
+        "handled-twice": ["for q in (1, 2):", "    try:", "        raise LookupError(q)", "    except LookupError:", "        print('inner', q)"],
+        "handled-in-callee": ["helper()"],
+        "handled-in-generator": ["print(list(gen()))"],
+        "nested-finally": ["try:", "    try:", "        raise TypeError('inner')", "    finally:", "        print('inner finally')", "except TypeError:", "    print('inner handled')"],
+        "with-swallow": ["with Swallow():", "    raise TypeError('inner')"],
+    }
+    positions = {
+        "in-handler": (["raise"], []),
+        "in-nested-handler": (["try:", "    raise AttributeError('second')", "except AttributeError:", "    print('second handled')", "    raise"], []),
+        "in-finally-of-handler": (["try:", "    print('body')", "finally:", "    raise"], []),
+        "in-else-after": (["print('handler done')"], ["raise"]),
+        "in-callee-of-handler": (["reraise()"], []),
+    }
+    pre = ("class Swallow:\n    def __enter__(self): return self\n    def __exit__(self, t, v, tb):\n        print('exit', t is not None); return True\n"
+           "def helper():\n    try:\n        raise OSError('h')\n    except OSError:\n        print('helper handled')\n"
+           "def gen():\n    for i in range(2):\n        try:\n            raise NameError(i)\n        except NameError:\n            yield i\n"
+           "def reraise():\n    raise\n")
+    out = []
+    for o in outers:
+        for an, act in acts.items():
+            for pn, (inh, after) in positions.items():
+                body = ["def run():", "    try:", "        raise " + o, "    except Exception:", "        print('handling')"]
+                body += ["        " + l for l in act] + ["        " + l for l in inh] + ["    " + l for l in after]
+                body += ["    print('run returns')"]
+                drv = ["try:", "    run()", "except BaseException as e:", "    print('out:', isinstance(e, ValueError), isinstance(e, KeyError), isinstance(e, ZeroDivisionError), isinstance(e, RuntimeError), isinstance(e, AttributeError), isinstance(e, TypeError), e.args)"]
+                out.append((pre + "\n".join(body + drv) + "\n", dict(outer=o.split("(")[0], activity=an, position=pn)))
+    return out
+
+# ---------------------------------------------------------------- parameters of every kind captured by inner scopes
+def captured_param_programs():
+    """systematic: a function whose signature has parameters of every kind (positional, defaulted,
+    *args, keyword-only, keyword-only with default, **kwargs); a chosen subset of them is captured by an
+    inner scope of a chosen form (closure read, nonlocal rebinding, lambda, comprehension, method of a
+    local class, doubly nested closure).  Every parameter is printed from the function and from the
+    inner scope."""
+    import itertools
+    params = [("p", "p"), ("d", "d=20"), ("va", "*va"), ("ko", "ko"), ("kd", "kd=50"), ("kw", "**kw")]
+    sigs = [["p", "d", "va", "ko", "kd", "kw"], ["p", "va", "ko"], ["ko", "kd"], ["p", "d", "ko", "kw"], ["va", "kd", "kw"], ["p", "d"]]
+    def inner(form, caps):
+        tup = "(" + ", ".join(caps) + ",)"
+        if form == "read": return ["def inner():", "    return " + tup, "print('inner', inner())"]
+        if form == "nonlocal":
+            return ["def inner():", "    nonlocal " + ", ".join(caps)] + ["    %s = (%s, 'n')" % (c, c) for c in caps] + ["    return " + tup, "print('inner', inner())"]
+        if form == "lambda": return ["print('inner', (lambda: " + tup + ")())"]
+        if form == "comprehension": return ["print('inner', [" + tup + " for _ in (1, 2)])"]
+        if form == "method": return ["class K:", "    def m(self):", "        return " + tup, "print('inner', K().m())"]
+        if form == "nested2": return ["def mid():", "    def inner():", "        return " + tup, "    return inner", "print('inner', mid()())"]
+    out = []
+    for sig in sigs:
+        text = []
+        seen_star = False
+        for n in sig:
+            spec = dict(params)[n]
+            if n in ("ko", "kd") and not seen_star and "va" not in sig[:sig.index(n)]:
+                text.append("*"); seen_star = True
+            text.append(spec)
+            if n == "va": seen_star = True
+        call_args = []
+        if "p" in sig: call_args.append("1")
+        if "d" in sig: call_args.append("2")
+        if "va" in sig: call_args += ["3", "4"] if ("p" in sig and "d" in sig) or ("p" not in sig and "d" not in sig) else []
+        if "ko" in sig: call_args.append("ko=5")
+        if "kw" in sig: call_args.append("zz=7")
+        for k in range(1, min(len(sig), 3) + 1):
+            for caps in itertools.combinations(sig, k):
+                for form in ("read", "nonlocal", "lambda", "comprehension", "method", "nested2"):
+                    body = ["def f(%s):" % ", ".join(text)] + ["    " + l for l in inner(form, list(caps))]
+                    body.append("    print('outer', %s)" % ", ".join(n if n != "kw" else "sorted(kw.items())" for n in sig))
+                    body.append("try:\n    f(%s)\nexcept NameError as e:\n    print('NameError')\nexcept UnboundLocalError as e:\n    print('UnboundLocalError')" % ", ".join(call_args))
+                    out.append(("\n".join(body) + "\n", dict(signature=", ".join(text), captured=list(caps), form=form)))
+    return out
